@@ -2,9 +2,9 @@ package main
 
 import (
 	"fmt"
-	"hash/fnv"
 	"go/token"
 	"go/types"
+	"hash/fnv"
 	"os"
 	"path/filepath"
 	"sort"
